@@ -48,8 +48,20 @@ def nonce_cand(E: "bytes", i: "int", rs: "int") -> "bool":
 
 
 @spec
-def nonce_offsets(E: "bytes", rs: "int", hi: "int") -> "ilist":
+def nonce_offs_upto(E: "bytes", rs: "int", hi: "int") -> "ilist":
     """ascending list of the candidates below hi"""
     if hi <= 0:
         return []
-    return nonce_offsets(E, rs, hi - 1) + ([hi - 1] if nonce_cand(E, hi - 1, rs) else [])
+    return nonce_offs_upto(E, rs, hi - 1) + ([hi - 1] if nonce_cand(E, hi - 1, rs) else [])
+
+
+@specfn
+def xok(E: "bytes", c: "int") -> "bool":
+    """the decoded view at nonce offset c starts (within 1024 bytes) with a valid PE header pair"""
+    return first_mz(xview(E, c), 0, 1024, 1024) != -1
+
+
+@spec
+def xcandidate(E: "bytes", c: "int") -> "bool":
+    """c is a nonce-offset candidate: the size relation holds, or it follows an end-of-stub marker ff ff ff"""
+    return nonce_cand(E, c, len(E)) or occ(E, b"\xff\xff\xff", c - 3)
